@@ -28,13 +28,34 @@ fn main() {
             let id: &'static str = Box::leak(id.clone().into_boxed_str());
             vcommon::driver::main_for(&hist::HistCheck { id }, rest)
         }
+        "scan-cancel" => {
+            use vcommon::driver::Check;
+            for arr in [9u8, 5, 0, 7] {
+                for &n in &[60u32, 300, 1000] {
+                    let mut fails = 0;
+                    let mut total = 0;
+                    let mut f = 0u32;
+                    while f < 65536 {
+                        let c = c18::SortCase { n, arrangement: arr, salt: 3, distinct: if arr == 5 { 4 } else { 0 }, threads: 1, cancel_at: None, total: false, nucleo_items: 0, cancel_frac: Some(f as u16) };
+                        let o = c18::C18.run(&c);
+                        total += 1;
+                        if o.fail.is_some() {
+                            fails += 1;
+                        }
+                        f += 257;
+                    }
+                    println!("arr {arr} n {n}: {fails}/{total} fail");
+                }
+            }
+            0
+        }
         "scan-sort" => {
             use vcommon::driver::Check;
             for arr in 0..9u8 {
                 for &n in &[100u32, 500, 2000, 5000, 20000] {
                     for salt in 0..6u32 {
                         for &distinct in &[0u32, 2, 3, 17] {
-                            let c = c18::SortCase { n, arrangement: arr, salt, distinct, threads: 1, cancel_at: None, total: false, nucleo_items: 0 };
+                            let c = c18::SortCase { n, arrangement: arr, salt, distinct, threads: 1, cancel_at: None, total: false, nucleo_items: 0, cancel_frac: None };
                             let o = c18::C18.run(&c);
                             if o.labels.contains(&"branch:heapsort") {
                                 println!("heapsort: {c:?}");
